@@ -45,6 +45,14 @@ pub fn command_line_runner(
     let query_file = File::open(args.query_file.clone()).map_err(|_e| {
         CompassAppError::BuildFailure(format!("Could not find query file {}", args.query_file))
     })?;
+    // a directory can be opened but never read: every read fails, and `lines()` yields that
+    // error for ever
+    if query_file.metadata().map(|m| m.is_dir()).unwrap_or(false) {
+        return Err(CompassAppError::BuildFailure(format!(
+            "Could not find query file {}: it is a directory",
+            args.query_file
+        )));
+    }
 
     // execute queries on app
     match (args.chunksize, args.newline_delimited) {
